@@ -38,7 +38,7 @@ TRUSTED_TOTAL_PREFIXES = (
     "std::hint::", "std::sync::Arc::", "std::sync::atomic::Atomic::", "std::cmp::", "std::default::Default::default",
     "std::slice::", "core::slice::", "std::ops::RangeInclusive::new", "std::borrow::", "std::convert::", "std::clone::",
     "uuid::", "ulid::", "serde_json::", "dashmap::", "crossbeam::", "sha2::", "std::time::", "std::mem::", "std::ops::",
-    "<", "orders::base::_::_serde::", "serde::", "std::boxed::Box::", "std::rc::", "std::char::", "core::char::",
+    "<", "serde::", "std::boxed::Box::", "std::rc::", "std::char::", "core::char::",
     "std::alloc::", "alloc::", "std::num::", "core::num::", "std::marker::", "std::any::", "tracing", "std::ptr::", "core::ptr::", "std::intrinsics::",
 )
 
